@@ -489,6 +489,9 @@ def impl_interp(ans):
     import re
     if "err" in ans:
         return ("err",)
+    if "panic" in ans and "error_message.rs" in (ans["panic"].get("loc") or "") and "out of bounds of the source" in (ans["panic"].get("msg") or ""):
+        # the parser did reject the input; rendering the error then trips C13's recorded byte-vs-character span assert (non-ASCII source)
+        return ("err", "panicked while rendering the error (C13)")
     if "ok" not in ans:
         return ("other", json.dumps(ans)[:200])
     st = ans["ok"].get("stmts", [])
